@@ -1,0 +1,17 @@
+//go:build verif
+// +build verif
+
+// verif hook for property C14 (add-only, compiled only with -tags verif):
+// builds a HostTable from a loaded HostConf exactly as ServerDataConf.hostTableLoad does for the host part.
+
+package bfe_route
+
+import (
+	"github.com/bfenetworks/bfe/bfe_config/bfe_route_conf/host_rule_conf"
+)
+
+func VerifC14Table(hostConf host_rule_conf.HostConf) *HostTable {
+	t := newHostTable()
+	t.updateHostTable(hostConf)
+	return t
+}
